@@ -157,3 +157,53 @@ pub fn format_at<T: truth::Format>(node: &T, width: usize) -> Result<String, Str
     }
     String::from_utf8(out).map_err(|e| e.to_string())
 }
+
+/// Wrap raised statements in a script item and run the common decompile post-processing
+/// (`blocks` selects whether loops / if-else chains / breaks are reconstructed).
+pub fn postprocess(truth: &mut Truth, stmts: Vec<truth::Sp<ast::Stmt>>, blocks: bool) -> Result<ast::Block, ()> {
+    let ident = truth::Ident::new_user("main").map_err(|_| ())?;
+    let mut file = ast::ScriptFile {
+        mapfiles: vec![], image_sources: vec![],
+        items: vec![sp!(ast::Item::Script { number: None, ident: sp!(ident), code: ast::Block(stmts), keyword: sp!(()) })],
+    };
+    let options = truth::DecompileOptions { blocks, ..Default::default() };
+    truth::passes::postprocess_decompiled(&mut file, truth.ctx(), &options).map_err(|e| { e.ignore(); })?;
+    match file.items.pop().map(|i| i.value) { Some(ast::Item::Script { code, .. }) => Ok(code), _ => Err(()) }
+}
+
+/// Structural facts about a statement tree used by C07's invariants.
+#[derive(Debug, Default, Clone, PartialEq)]
+pub struct Shape {
+    pub label_defs: std::collections::BTreeMap<String, usize>,
+    pub label_refs: std::collections::BTreeSet<String>,
+    pub time_labels: Vec<String>,
+    pub explicit_time_gotos: usize,
+    pub blocks: usize,
+}
+
+pub fn shape_of(block: &ast::Block) -> Shape {
+    use truth::ast::{Visit, Visitable};
+    struct V(Shape);
+    impl Visit for V {
+        fn visit_stmt(&mut self, s: &truth::Sp<ast::Stmt>) {
+            match &s.kind {
+                ast::StmtKind::Label(l) => *self.0.label_defs.entry(l.to_string()).or_insert(0) += 1,
+                ast::StmtKind::AbsTimeLabel(t) => self.0.time_labels.push(format!("abs {}", t.value)),
+                ast::StmtKind::RelTimeLabel { delta, .. } => self.0.time_labels.push(format!("rel {:?}", delta.as_const_int())),
+                ast::StmtKind::CondChain(_) | ast::StmtKind::Loop { .. } | ast::StmtKind::While { .. } | ast::StmtKind::Times { .. } => self.0.blocks += 1,
+                _ => {}
+            }
+            ast::walk_stmt(self, s);
+        }
+        fn visit_jump(&mut self, j: &ast::StmtJumpKind) {
+            if let ast::StmtJumpKind::Goto(g) = j { self.0.label_refs.insert(g.destination.to_string()); if g.time.is_some() { self.0.explicit_time_gotos += 1; } }
+        }
+        fn visit_expr(&mut self, e: &truth::Sp<ast::Expr>) {
+            if let ast::Expr::LabelProperty { label, .. } = &e.value { self.0.label_refs.insert(label.to_string()); }
+            ast::walk_expr(self, e);
+        }
+    }
+    let mut v = V(Shape::default());
+    block.visit_with(&mut v);
+    v.0
+}
